@@ -46,6 +46,8 @@ type Contract struct {
 	HasAssigns bool
 	Reads    []string
 	HasReads bool
+	Preserves    []string
+	HasPreserves bool
 	Decreases *Clause
 	Where    string
 	Notes    []string
@@ -134,10 +136,11 @@ type ConstCheck struct {
 	Pkg    string
 	Props  []string
 	Clause *Clause
+	Kind   string // const | callers
 }
 
 var clauseKW = map[string]bool{"props": true, "pure": true, "opaque": true, "trusted": true, "nopanic": true, "lemma": true, "arith": true,
-	"requires": true, "ensures": true, "assume": true, "loop": true, "guard": true, "assigns": true, "reads": true, "decreases": true, "note": true, "cover": true}
+	"requires": true, "ensures": true, "assume": true, "loop": true, "guard": true, "assigns": true, "reads": true, "preserves": true, "decreases": true, "note": true, "cover": true}
 
 var reLabel = regexp.MustCompile(`^\[([A-Za-z0-9_.-]+)\]\s*`)
 
@@ -182,7 +185,7 @@ func (cs *ContractSet) ParseContractFile(path, pkgPath string) error {
 			first = first[:i]
 		}
 		first = strings.TrimSuffix(first, ":")
-		if first == "func" || first == "ghost" || first == "fieldguard" || first == "const" || first == "define" || clauseKW[first] {
+		if first == "func" || first == "ghost" || first == "fieldguard" || first == "const" || first == "callers" || first == "define" || clauseKW[first] {
 			joined = append(joined, l)
 		} else if len(joined) > 0 {
 			joined[len(joined)-1].text += " " + l.text
@@ -267,7 +270,7 @@ func (cs *ContractSet) ParseContractFile(path, pkgPath string) error {
 			}
 			cs.FieldGuards = append(cs.FieldGuards, &FieldGuard{Field: strings.TrimSpace(rest[:i]), Cond: c, Props: props, Pkg: pkgPath})
 			cur = nil
-		case "const":
+		case "const", "callers":
 			rest = strings.TrimSpace(rest)
 			var props []string
 			if strings.HasPrefix(rest, "[") {
@@ -275,7 +278,7 @@ func (cs *ContractSet) ParseContractFile(path, pkgPath string) error {
 				props = strings.Split(rest[1:j], ",")
 				rest = strings.TrimSpace(rest[j+1:])
 			}
-			cs.Consts = append(cs.Consts, &ConstCheck{Pkg: pkgPath, Props: props, Clause: &Clause{Text: rest, Where: where}})
+			cs.Consts = append(cs.Consts, &ConstCheck{Pkg: pkgPath, Props: props, Clause: &Clause{Text: rest, Where: where}, Kind: kw})
 			cur = nil
 		default:
 			if cur == nil {
@@ -316,6 +319,11 @@ func (cs *ContractSet) ParseContractFile(path, pkgPath string) error {
 					cur.Assumes = append(cur.Assumes, c)
 				case "decreases":
 					cur.Decreases = c
+				}
+			case "preserves":
+				cur.HasPreserves = true
+				for _, p := range strings.FieldsFunc(rest, func(r rune) bool { return r == ' ' || r == ',' }) {
+					cur.Preserves = append(cur.Preserves, p)
 				}
 			case "reads":
 				cur.HasReads = true
